@@ -18,7 +18,7 @@ RULE = ("Exhaustive: every string of length <=3 (thorough: <=4 for the mutation 
         "key, update with mapping / pair list / kwargs, setdefault on new/existing key), as cookie name, as cookie value and as redirect target "
         "(str and URL object), each response emitted through both server emulators; plus random op sequences (<=6 mutations) and random longer "
         "strings. Non-trivial = string containing CR, LF, NUL, ';', ',', '=', a quote, backslash or a non-ASCII character; distinct = (string, position).")
-RULE += ' Also: the mutations applied to the header mapping of a response object and of the response a middleware handler gets from next_call(), then sent; the emitted Location, with its percent-escapes undone, is the text asked for (escaped, not dropped); hostile text in the authority part of redirect targets, stored under the header names the library sets itself, cookie name with empty value / delete_cookie, and Cookie attributes assigned after construction (response.cookies[-1].value = ...).'
+RULE += ' Also: the mutations applied to the header mapping of a response object and of the response a middleware handler gets from next_call(), then sent; the emitted Location, with its percent-escapes undone, is the text asked for (escaped, not dropped); hostile text in the authority part of redirect targets, stored under the header names the library sets itself, cookie name with empty value / delete_cookie, and Cookie attributes assigned after construction (response.cookies[-1].value = ...). update() and |= with a Headers object as the source.'
 ASSUMPTIONS = [
     "constructor-supplied headers and the cookie path/domain attributes are outside the statement's quantifier and are kept clean",
     "a name/value with code points above U+00FF may fail to be emitted (UnicodeEncodeError): nothing is smuggled, so that is tolerated",
@@ -44,7 +44,7 @@ def nontrivial(s):
 
 
 PATHS = ["setitem-existing", "setitem", "append-new", "append-existing", "update-mapping", "update-pairs", "update-kwargs", "setdefault-new",
-         "setdefault-existing"]
+         "setdefault-existing", "update-headers-object", "ior-headers-object"]
 
 
 def mutate(h, path, key, value):
@@ -60,6 +60,17 @@ def mutate(h, path, key, value):
         h.update([("x-clean", "1"), (key, value)])
     elif path == "update-kwargs":
         h.update(**{key: value})
+    elif path == "update-headers-object":
+        # what a view copies over: the (read-only) header mapping of a request or of another response
+        from baize.datastructures import Headers
+        h.update(Headers([(key, value)]))
+    elif path == "ior-headers-object":
+        from baize.datastructures import Headers
+        src = Headers([(key, value)])
+        if hasattr(type(h), "__ior__"):
+            h |= src
+        else:
+            h.update(src)
     elif path == "setdefault-new":
         h.setdefault(key, value)
     elif path == "setdefault-existing":
